@@ -342,6 +342,10 @@ class qutipEngine(quantumEngine):
         obj = M1 * self.qubitReg
         p1 = obj.tr().real
 
+        # Rounding errors can leave a probability marginally outside [0, 1], which np.random.choice rejects
+        p0 = min(max(p0, 0.0), 1.0)
+        p1 = min(max(p1, 0.0), 1.0)
+
         # Sample the measurement outcome from these probabilities
         outcome = int(np.random.choice([0, 1], p=[p0, p1]))
 
